@@ -19,6 +19,14 @@ a fresh `AurelCore` per (row, name) built here.  The canonical table is
 compared, column order included, with the symbolic table printed by
 Driver/C14.lean for the same scenario.
 
+Custom variables are frozen inputs of the step: scenarios with custom functions
+named like built-in keys (`press`, `rho0`, `eps`, `alpha` when it is not an
+input), 5-14 built-ins that read them, `clear_cache_every_nbr_calc` 1-5 passed
+through over_time, the custom entry first / in the middle / last; the model's
+identities carry the custom values explicitly
+(`calc(press_n,row3|press=cust(fp,row3))`) and the reference is a fresh
+AurelCore that holds them as frozen inputs, clean-up disabled.
+
 Search oracle (independent of the model): the same fresh-AurelCore
 references, a stable sort of the row tags written here, and the one-call run
 of the real code for split-invariance.
@@ -35,7 +43,7 @@ from lib import fw
 
 MODULE = "AurelVerif.Props.C14"
 THEOREMS = ["AurelVerif.C14." + t for t in (
-    "per_step", "per_step_builtin", "no_leakage", "estimates", "scalar_keys",
+    "per_step", "per_step_frozen_customs", "per_step_builtin", "no_leakage", "estimates", "scalar_keys",
     "sorted_together_partial", "sorted_together_full_is_false", "nothing_new_returns_input",
     "split_invariance", "split_of_sequence", "splitHyp_t1", "split_any_order_is_false",
     "single_row", "temporal_key_last_wins", "temporal_key_cases", "no_temporal_key_raises")]
@@ -650,6 +658,24 @@ def shadow_scenario(rng, sc):
         sc.update(domain=False, style="shadow_free", calls=calls)
 
 
+def fixed_shadow_scenarios():
+    """Always run: a custom `press` (first / middle / last in the request), ten built-ins that
+    read it, `clear_cache_every_nbr_calc` = 2 passed through over_time."""
+    deps = ["press_n", "Ktrace", "gammadet", "Stresstrace_n", "A2", "gdet", "enthalpy", "Hamiltonian",
+            "dtKtrace", "Ttrace"]
+    out = []
+    for pos in (0, 5, 10):
+        v = list(deps)
+        v.insert(pos, {"dict": [["press", "fp"]]})
+        sc = {"N": 6, "order": [2, 0, 1], "cols": ["it", "gammadown3", "Kdown3", "alpha", "rho", "betaup3"],
+              "tvals": {"it": [20, 0, 10]}, "kwargs": {"clear_cache_every_nbr_calc": 2}, "domain": True,
+              "style": "shadow_one_call", "vars_all": v, "ests_all": ["max"],
+              "calls": [{"vars": list(v), "ests": ["max"]}]}
+        finish_scenario(sc)
+        out.append(sc)
+    return out
+
+
 def finish_scenario(sc):
     bi, cf, ef, ce = [], [], [], []
     for call in sc["calls"] + [{"vars": sc.get("vars_all", []), "ests": sc.get("ests_all", [])}]:
@@ -799,6 +825,31 @@ def oracle_check(ctx, sc, refs, refd, real, modified, stats):
             found += viol("input_lost", "input column %r has %d rows, expected %d" % (c, len(can[c]), n))
     if found:
         return found
+    # custom variables must be frozen inputs of the step: a cell that equals the value computed
+    # WITHOUT the custom values (built-in defaults instead) is reported as such
+    for c, ids in exp.items():
+        if c not in can:
+            continue
+        for i, want in enumerate(ids):
+            if i >= len(can[c]) or can[c][i] == want:
+                continue
+            head, _, body = want.partition("(")
+            name, rest = split_first(body[:-1], ",")
+            rowpart, entries = split_first(rest, "|")
+            plain = None
+            if head == "calc" and entries:
+                plain = "calc(%s,%s)" % (name, rowpart)
+            elif head == "cust":
+                plain = "calc(%s,%s)" % (c, rowpart)      # the custom's own column holds the built-in default
+            pv = refs.value(plain) if plain else None
+            if pv is not None and same(real[c][i], pv) and not same(refs.value(want), pv):
+                frozen = [e.partition("=")[0] for e in split0(entries, ";")] if entries else [c]
+                found += viol("custom_not_frozen",
+                              "column %r row %d equals %s, i.e. it was computed from the built-in default of %s "
+                              "instead of the custom value(s) set for this step (the custom variable is not a "
+                              "frozen input of the per-step AurelCore; kwargs %s)"
+                              % (c, i, plain, frozen, json.dumps(sc["kwargs"], sort_keys=True)))
+                return found
     # order / permuted together: the row tag of every cell of output row i must be one tag
     out_tags = []
     for i in range(n):
@@ -1021,7 +1072,7 @@ def run(ctx):
         ctx.leanchecker([MODULE])
     # 4. correspondence
     n_sc = ctx.budget(300, 5000)
-    scs = [gen_scenario(ctx.rng, ctx.tier) for _ in range(n_sc)]
+    scs = fixed_shadow_scenarios() + [gen_scenario(ctx.rng, ctx.tier) for _ in range(n_sc)]
     results, bad = correspondence(ctx, scs, "random scenarios")
     correspondence(ctx, error_scenarios(), "malformed tables")
     ragged_case(ctx)
@@ -1075,5 +1126,5 @@ MANIFEST = {
     "category": "proof",
     "technique": "Lean 4 theorems over a hand-written executable model of over_time/process_single_timestep (association-list tables, abstract per-row comp/cust/est functions, stable insertion sort), tied to the real code by canonical-table correspondence with per-row distinct inputs and tagged custom functions",
     "text": "Proof for all tables (any number n >= 1 of rows, any row order, any columns) and all request lists: every stored cell of a requested variable is rel[v] of an AurelCore whose data is a function of that row's own dictionary (no other row occurs; stated also as non-interference between tables that agree on one row); every new estimate column k_e is the estimator applied row by row to column k, for input and computed scalars alike; when the call computes anything, the output is the column view of the input rows stably sorted by the last-present temporal key (Perm + Pairwise + stability), every row processed on its own, so all columns are permuted together and input columns are preserved cell by cell; every consecutive split of vars ++ estimates into successive calls returns exactly the one-call table (column order included) under explicit hypotheses (distinct variable names that are not temporal names, estimators return scalars, array rank constant per column, strict weak order on the temporal cells, and the C01 hypothesis FeedbackOK: a column computed earlier and fed back as frozen input does not change later values); single row and all temporal-key combinations. The model is tied to aurel.over_time by comparing, cell by cell and in dict order, canonical identity tables (each real cell matched to the fresh-AurelCore reference it equals) on random scenarios: 1-7 rows, shuffled, ties, every temporal-key combination, built-in names, tagged custom variable functions and estimators (valid and invalid), pre-existing estimate columns, AurelCore keyword options, 1-3 calls, plus malformed tables (exceptions).",
-    "note": "Trusted: Lean kernel + propext/Classical.choice/Quot.sound; the hand-written model Model/Table.lean (validated by correspondence, 300 scenarios quick / 5000 thorough); what AurelCore computes inside one step is abstract (C01-C10). Two statements of the property text are false in full generality and are proven so from witnesses replayed on the real code (reported as KNOWN-FINDING): estimates requested in an earlier call than a variable do not cover that variable; a call with nothing new returns the table unsorted. Not covered by a theorem (correspondence and oracle only): successive calls that each pass the full estimates list; non-equivalence of request names (duplicates, custom names shadowing built-ins).",
+    "note": "Trusted: Lean kernel + propext/Classical.choice/Quot.sound; the hand-written model Model/Table.lean (validated by correspondence, 300 scenarios quick / 5000 thorough); what AurelCore computes inside one step is abstract (C01-C10). Two statements of the property text are false in full generality and are proven so from witnesses replayed on the real code (reported as KNOWN-FINDING): estimates requested in an earlier call than a variable do not cover that variable; a call with nothing new returns the table unsorted. Custom variables as frozen inputs of the step (independent of clear_cache_every_nbr_calc) are stated by per_step_frozen_customs and checked with customs named like built-in keys. Not covered by a theorem (correspondence and oracle only): successive calls that each pass the full estimates list; a custom named like a built-in requested in a LATER call than built-ins that read it (outside FeedbackOK).",
 }
